@@ -207,11 +207,24 @@ def drive(recipe):
                 ma = Molecule.from_arrays(z, A @ P.T)
                 mb = Molecule.from_arrays(z, B @ P.T)
                 _ = (ma.centroid, mb.centroid, ma.center_of_mass, mb.center_of_mass, ma.distance_to(mb))
-                Dimer(ma, mb, transform_ab="calculate")
+                old = Dimer(ma, mb, transform_ab="calculate")
                 ma.rotate(P)
                 mb.rotate(P)
                 if not (np.array_equal(ma.positions, A) and np.array_equal(mb.positions, B)):
                     t["exc"] = "RotateInPlace"
+                    return t
+                if sum(recipe["z"]) % 2:
+                    # the transform asked again of the SAME dimer object after its molecules were moved
+                    old.calculate_transform()
+                    tr = old.transform_ab
+                    if tr is None:
+                        t["exc"] = "NoTransform"
+                        return t
+                    R = np.asarray(tr[0], dtype=float)
+                    if R.shape != (3, 3) or not np.all(np.isfinite(R)):
+                        t["exc"] = "shape"
+                        return t
+                    t["R"] = [[_qi(x) for x in row] for row in R]
                     return t
             else:
                 ma = Molecule.from_arrays(z, A.copy())
